@@ -443,3 +443,30 @@ Proof.
     as [[a s']|e|k']; try discriminate.
   inversion Hrun; subst. apply S. reflexivity.
 Qed.
+
+(* the same number computed without deep recursion (the extracted naturals are unary and the
+   driver's histories are long) *)
+Fixpoint tlen {A} (l : list A) (acc : nat) : nat := match l with [] => acc | _ :: r => tlen r (S acc) end.
+Definition hist_size_tr (h : list (input * list tev)) : nat :=
+  fold_left (fun acc it => Nat.tail_add (Nat.tail_add (Nat.tail_mul wT (tlen (snd it) 0)) (input_size (fst it))) acc) h 0.
+Definition fuel_bound_tr (h : list (input * list tev)) (final : list tev) : nat :=
+  Nat.tail_add (Nat.tail_mul K (Nat.tail_add (hist_size_tr h) (Nat.tail_mul wT (tlen final 0)))) 10.
+
+Lemma tlen_spec {A} (l : list A) : forall acc, tlen l acc = length l + acc.
+Proof. induction l as [|a l IH]; intros acc; simpl; [reflexivity|]. rewrite IH. lia. Qed.
+
+Lemma hist_size_tr_eq h : hist_size_tr h = hist_size h.
+Proof.
+  unfold hist_size_tr, hist_size.
+  assert (G : forall acc, fold_left (fun acc it => Nat.tail_add (Nat.tail_add (Nat.tail_mul wT (tlen (snd it) 0)) (input_size (fst it))) acc) h acc
+                          = acc + list_sum (map (fun it => wT * length (snd it) + input_size (fst it)) h)).
+  { induction h as [|it h IH]; intros acc; [simpl; lia|].
+    cbn [fold_left map]. change (list_sum (?a :: ?l)) with (a + list_sum l).
+    rewrite IH. rewrite !Nat.tail_add_spec, Nat.tail_mul_spec, tlen_spec. unfold wT. lia. }
+  rewrite G. reflexivity.
+Qed.
+
+Lemma fuel_bound_tr_eq h final : fuel_bound_tr h final = fuel_bound h final.
+Proof.
+  unfold fuel_bound_tr, fuel_bound. rewrite !Nat.tail_add_spec, !Nat.tail_mul_spec, hist_size_tr_eq, tlen_spec. unfold K, wT. lia.
+Qed.
